@@ -45,6 +45,8 @@ func main() {
 		cmdFuzz(os.Args[2:])
 	case "interrupt":
 		cmdInterrupt(os.Args[2:])
+	case "compchild":
+		gh.CompChild()
 	default:
 		die("unknown sub-command %s", os.Args[1])
 	}
